@@ -39,7 +39,7 @@ SPECTRUM_REASONS = ('NO_SPECTRUM', 'NOT_ENOUGH_RESERVED_SPECTRUM')
 
 def plan(tier, seed):
     n = 40 if tier == 'quick' else 2000
-    return [{'idx': i, 'kind': ['plain', 'sat', 'plain', 'sat', 'p2p'][i % 5]} for i in range(n)]
+    return [{'idx': i, 'kind': ['plain', 'sat', 'plain', 'sat', 'p2p', 'multiband'][i % 6]} for i in range(n)]
 
 
 def digest_network(network):
@@ -87,7 +87,35 @@ def strip(result_json):
     return {'reason': reason, 'route': route, 'trx': trx, 'metrics': metrics}
 
 
+def build_multiband(rng):
+    """C+L network (shipped example or generated): the line amplifiers are Multiband_amplifier elements that hold one
+    amplifier object per band - state an element keeps in a sub-object must stay per request as well."""
+    low = rng.random() < 0.6
+
+    def hook(ej):
+        if low:
+            for e in ej['Edfa']:
+                if e.get('type_def') != 'multi_band' and e.get('p_max', 0) > 18:
+                    e['p_max'] = G.pick(rng, [15, 16, 17, 18])
+        voy = next(t for t in ej['Transceiver'] if t['type_variety'] == 'Voyager')
+        voy['mode'].append({'format': 'impossible', 'baud_rate': 32e9, 'OSNR': 45, 'bit_rate': 100e9, 'roll_off': 0.15,
+                            'tx_osnr': 40, 'min_spacing': 37.5e9, 'cost': 1})
+    if rng.random() < 0.4:
+        ej = G.eqpt_json('eqpt_config_multiband.json')
+        hook(ej)
+        equipment = G.make_equipment(ej)
+        tj = G.example_json('multiband_example_network.json')
+        network = G.make_network(tj, equipment)
+        SimParams.set_params({})
+        G.design(equipment, network)
+        return ej, tj, equipment, network
+    b = P.build_multiband(rng, ej_hook=hook)
+    return b['ej'], b['tj'], b['equipment'], b['network']
+
+
 def build(rng, kind):
+    if kind == 'multiband':
+        return build_multiband(rng)
     ej = G.eqpt_json()
     G.vary_span_si(rng, ej, allow_eol=False, power_mode=True)
     if kind == 'sat':
@@ -150,6 +178,46 @@ def gen_batch(rng, trx, sites_of):
         r['path-constraints']['te-bandwidth']['path_bandwidth'] = 100e9 + i * 1e9
         r['_kind'] = kind
         reqs.append(r)
+    if rng.random() < 0.6:
+        # twins: a second request between the same end points that differs from an earlier one in ONE respect only
+        # (hop types, mode, spacing, launch power, comb size, direction flag, satisfiable or not route list).  Whatever
+        # is shared or memoised between the requests of a batch must be keyed by all of these.
+        for _ in range(rng.randint(1, 2)):
+            src = G.pick(rng, reqs)
+            t = deepcopy(src)
+            te = t['path-constraints']['te-bandwidth']
+            ero = t.get('explicit-route-objects', {}).get('route-object-include-exclude')
+            how = G.pick(rng, ['hops', 'hops', 'mode', 'spacing', 'power', 'nb', 'route'])   # (not the direction flag alone:
+            # such twins are aggregated into one request, which is outside this property's batches)
+            if how == 'hops' and not ero:
+                how = 'route'
+            if how == 'route' and not sites_of:
+                how = 'nb'
+            if how == 'hops':
+                for o in ero:
+                    o['num-unnum-hop']['hop-type'] = 'LOOSE' if o['num-unnum-hop']['hop-type'] == 'STRICT' else 'STRICT'
+            elif how == 'route':
+                a, z = t['source'], t['destination']
+                others = [s for s in sites_of.values() if s not in (sites_of[a], sites_of[z])]
+                nodes = [sites_of[z], sites_of[a]] if not others or rng.random() < 0.5 else [G.pick(rng, others)]
+                hop = G.pick(rng, ['LOOSE', 'STRICT'])
+                tt = S.request('x', a, z, nodes=nodes, hops=[hop] * len(nodes))
+                t['explicit-route-objects'] = tt['explicit-route-objects']
+            elif how == 'mode':
+                te['trx_mode'] = G.pick(rng, [m for m in ('mode 1', 'mode 2', 'mode 3', 'mode 4', None) if m != te['trx_mode']])
+                te['spacing'] = max(te['spacing'], 75e9)
+            elif how == 'spacing':
+                te['spacing'] = te['spacing'] + G.pick(rng, [12.5e9, 25e9])
+            elif how == 'power':
+                te['output-power'] = G.pick(rng, [0.0005, 0.002, 0.004])
+            elif how == 'nb':
+                te['max-nb-of-channel'] = G.pick(rng, [n for n in (10, 20, 40, 60) if n != te['max-nb-of-channel']])
+            t['request-id'] = f'r{len(reqs)}'
+            te['path_bandwidth'] = 100e9 + len(reqs) * 1e9
+            t['_kind'] = f'twin-{how}:' + src['_kind']
+            # the twin comes right after its model, right before it, or anywhere
+            pos = G.pick(rng, [reqs.index(src) + 1, reqs.index(src), rng.randint(0, len(reqs))])
+            reqs.insert(pos, t)
     return reqs
 
 
@@ -216,7 +284,7 @@ def run_case(case, ctx):
                 detail = {}
                 if 'metrics' in what and s['metrics'] and r0['metrics']:
                     detail = {'first': r0['metrics']['fwd'][:6], 'now': s['metrics']['fwd'][:6]}
-                ctx.violation('result-depends-on-batch', f'request {rq.request_id} ({kinds[rq.request_id]}): {what} '
+                ctx.violation('result-depends-on-batch', f'request {rq.request_id} ({kinds.get(rq.request_id)}): {what} '
                               f'differ between batch order {o0} and {order}', detail)
                 ctx.dump.update({'topology': tj, 'batch': batch, 'orders': [o0, order],
                                  'equipment_edfa': ej['Edfa'], 'equipment_roadm': ej['Roadm'][:1], 'si': ej['SI']})
